@@ -774,7 +774,7 @@ def run(ctx):
     walks += [(init, p) for p in paths]
     n_ex = len(walks)
     # random walks
-    for _ in range(ctx.scale(1000, 20000)):
+    for _ in range(ctx.scale(1000, 12000)):
         walks.append(gen_walk(ctx.rng, 200))
     solos = [gen_solo(ctx.rng, ctx.rng.randrange(5, 40)) for _ in range(ctx.scale(400, 8000))]
     texts = ["", "a", "--1", "a--1", "a--b--12", "a---5", "a--1--x", "x--", "a--12b", "a-1", "0--0", "ab--007"] + [
